@@ -1,5 +1,6 @@
 import Cx.Driver
 import Cx.Model.Dfa
+import Cx.Model.DfaRev
 /-
   Cx.DriverDfa — line-protocol handler for the lazy DFA model (`Cx.Model.Dfa`).
 
@@ -12,7 +13,16 @@ import Cx.Model.Dfa
         `ops` = `;`-separated `<op>.<at>.<hayhex>` executed in order on ONE cache (fresh at the start);
         op: S = SearchAt, A = SearchAtAnchored, M = IsMatch, I = IsMatchAt (cached);
             s, a, m, i = the same entry points without a cache; X = Reset the cache (`at`, `hayhex` ignored)
+        reverse searches (`Cx.Model.DfaRev`), meaningful for a reverse DFA, i.e. under `dfa rev`:
+            R.<start>.<end>.<hayhex>             SearchReverse                → start | -1
+            L.<start>.<end>.<minStart>.<hayhex>  SearchReverseLimited         → start | -1 | -2  (SearchReverseLimitedQuadratic)
+            Q.<start>.<end>.<hayhex>             IsMatchReverse               → t | f
+            r, l, q = the same without a cache (= the NFA fallbacks nfaFallbackReverse / …Limited / …IsMatchReverse,
+            i.e. `reverseWalk`); the reverse searches never answer `G` (their fallback is part of the model)
         answer: the results joined by `,` (end | -1 | t | f | G)
+    dfa rev <stride> <capacity> <maxclears> <detlimit> <classhex|-> <nfa> <ops>
+        the same as `dfa run` for a REVERSE DFA: `Config.BreakAtMatch = false` (as meta builds every reverse DFA),
+        `DeterminizationLimit = <detlimit>`; `<nfa>` is the reverse automaton (`nfa.Reverse(N)` / `nfa.ReverseAnchored(N)`)
     dfa classcompat <classhex> <nfa>            classCompatB,classStepB (byte classes respect every byte range of the NFA and
                                                 the distinctions its look-around makes: `\n`, word bytes)
     dfa btfirst <at> <hayhex> <nfa>             the reference for `SearchAtAnchored`: end of the first match the priority DFS
@@ -43,11 +53,23 @@ structure Op where
   op : String
   at_ : Nat
   h : Bytes
+  /-- all numeric fields (`at_` is the first one) -/
+  args : List Nat := []
 
 def parseOp (s : String) : Option Op :=
   match s.splitOn "." with
   | [op, at_, hex] => do pure { op := op, at_ := (← parseNat at_), h := (← parseHex hex) }
+  | [op, a, b, hex] => do pure { op := op, at_ := (← parseNat a), h := (← parseHex hex), args := [← parseNat a, ← parseNat b] }
+  | [op, a, b, c, hex] => do
+    pure { op := op, at_ := (← parseNat a), h := (← parseHex hex), args := [← parseNat a, ← parseNat b, ← parseNat c] }
   | _ => none
+
+def showRev : RevSuffix.RevAnswer → String
+  | .found s => toString s
+  | .none => "-1"
+  | .cutOff => "-2"
+
+def showB (b : Bool) : String := if b then "t" else "f"
 
 def runOps (N : Nfa.NFA) (cfg : Config) : List Op → Cache → List String → Option (List String)
   | [], _, acc => some acc.reverse
@@ -62,6 +84,30 @@ def runOps (N : Nfa.NFA) (cfg : Config) : List Op → Cache → List String → 
     | "m" => runOps N cfg os c (showBool (apiIsMatchU N cfg o.h) :: acc)
     | "i" => runOps N cfg os c (showBool (apiIsMatchAtU N cfg o.h o.at_) :: acc)
     | "X" => runOps N cfg os Cache.empty ("x" :: acc)
+    | "R" =>
+      match o.args with
+      | [st, e] => let r := searchReverseC N cfg c o.h st e; runOps N cfg os r.2 (showRev r.1 :: acc)
+      | _ => none
+    | "L" =>
+      match o.args with
+      | [st, e, m] => let r := searchReverseLimitedC N cfg c o.h st e m; runOps N cfg os r.2 (showRev r.1 :: acc)
+      | _ => none
+    | "Q" =>
+      match o.args with
+      | [st, e] => let r := isMatchReverseC N cfg c o.h st e; runOps N cfg os r.2 (showB r.1 :: acc)
+      | _ => none
+    | "r" =>
+      match o.args with
+      | [st, e] => runOps N cfg os c (showRev (searchReverseU N cfg o.h st e) :: acc)
+      | _ => none
+    | "l" =>
+      match o.args with
+      | [st, e, m] => runOps N cfg os c (showRev (searchReverseLimitedU N cfg o.h st e m) :: acc)
+      | _ => none
+    | "q" =>
+      match o.args with
+      | [st, e] => runOps N cfg os c (showB (isMatchReverseU N cfg o.h st e) :: acc)
+      | _ => none
     | _ => none
 
 def parseCls (s : String) : Option (Nat → Nat) :=
@@ -98,6 +144,16 @@ def handle? (toks : List String) : Option String :=
       | some rs => some (",".intercalate rs)
       | none => some "bad-op"
     | _, _, _, _, _, _ => some "bad-op"
+  | ["dfa", "rev", stride, cap, clears, det, cls, nfa, ops] =>
+    match parseNat stride, parseNat cap, parseNat clears, parseNat det, parseCls cls, Driver.parseNfa nfa,
+        (ops.splitOn ";").mapM parseOp with
+    | some stride, some cap, some clears, some det, some cls, some N, some ops =>
+      let cfg : Config :=
+        { capacity := cap, maxClears := clears, stride := stride, cls := cls, detLimit := det, breakAtMatch := false }
+      match runOps N cfg ops Cache.empty [] with
+      | some rs => some (",".intercalate rs)
+      | none => some "bad-op"
+    | _, _, _, _, _, _, _ => some "bad-op"
   | ["dfa", "classcompat", cls, nfa] =>
     match parseCls cls, Driver.parseNfa nfa with
     | some cls, some N => some (toString (classCompatB N cls) ++ "," ++ toString (classStepB N cls))
